@@ -170,7 +170,7 @@ pub fn lits_full() -> Vec<V> {
     ]
 }
 pub fn lits_quick() -> Vec<V> {
-    vec![i(1), s("x"), l(vec![i(1), i(2)]), l(vec![i(1)]), rng_i(1, 2, true, true), V::Null]
+    vec![i(1), s("x"), l(vec![i(1), i(2)]), l(vec![i(1)]), rng_i(1, 2, true, true), V::Null, l(vec![])]
 }
 
 // ---------------- queries
